@@ -18,6 +18,10 @@ def specSizeField (line : Bytes) : Option Nat :=
   else if !(rest.isEmpty || rest.head? == some 59) then none
   else some (digits.foldl (fun acc c => acc * 16 + (hexDigitVal c).getD 0) 0)
 
+/-- an output as logged (`#len:hash` when long and not logged in full, hex otherwise) against the expected bytes -/
+def sameOut (expect : Bytes) (o : String) : Bool :=
+  if o.startsWith "#" then toHexOut false expect == o else toHex expect == o
+
 /-- trailer section: lines until an empty one; returns the rest after the final CRLF -/
 def specTrailers : Nat → Bytes → Option Bytes
   | 0, _ => none
@@ -82,7 +86,7 @@ def oracleC07 (c : TCase) : Verdict :=
               if olen > cap then { s with fail := some s!"produced {olen} > output space {cap}: {t.raw}" } else
               if s.off + i > encLen then { s with fail := some s!"read past the end of the coding (consumed {s.off + i} of {encLen}): {t.raw}" } else
               let expect := (payload.drop s.outOff).take olen
-              if expect.length != olen || toHexOut false expect != o then
+              if expect.length != olen || !sameOut expect o then
                 { s with fail := some s!"output is not the next {olen} payload bytes (payload offset {s.outOff}): {t.raw}" } else
               if s.stop && !withinOneChunk bounds s.outOff olen then
                 { s with fail := some s!"one read returned data from two chunks with boundary stopping on: {t.raw}" } else
@@ -123,7 +127,7 @@ def readChecks (t : TLine) (limit : Option Nat) : Option String × Nat :=
       let win := unhex w
       let k := match limit with | some l => min win.length (min cap l) | none => min win.length cap
       if i != k then (some s!"moved {i} bytes, expected min(input, output space, remaining) = {k}: {t.raw}", 0)
-      else if toHexOut false (win.take k) != o then (some s!"output differs from the input prefix: {t.raw}", 0)
+      else if !sameOut (win.take k) o then (some s!"output differs from the input prefix: {t.raw}", 0)
       else (none, k)
     | _, _ => (some s!"malformed: {t.raw}", 0)
   | _, _ => (some s!"read failed: {t.raw}", 0)
